@@ -145,9 +145,24 @@ def main():
         other = C.Definition(rng.sample(pool_o, 5), rng.sample(pool_p, 5),
                              [tuple(rng.random() < 0.5 for _ in range(5)) for _ in range(5)])
         for step in range(25):
-            x = rng.randrange(12)
+            x = rng.randrange(14)
             try:
-                if x == 0:
+                if x >= 12:
+                    # a call that raises inside the library (ill-typed names argument), caught by the caller, who
+                    # goes on using the definition: whatever state it is left in is the same in every process
+                    ps, os_ = rng.sample(pool_p, 3), rng.sample(pool_o, 3)
+                    bad = [lambda: d.add_object(rng.choice(pool_o), [ps[0], [ps[1], ps[2]], ps[1]]),
+                           lambda: d.set_object(rng.choice(pool_o), None),
+                           lambda: d.add_property(rng.choice(pool_p), [os_[0], os_[1], {}, os_[2]]),
+                           lambda: d.set_property(rng.choice(pool_p), 5),
+                           lambda: d.set_object(rng.choice(d.objects) if d.objects else 'o', [ps[2], ps[0], [ps[1]]]),
+                           lambda: d.rename_object([], 'x'), lambda: d.move_property(ps[0], 'first'),
+                           lambda: d.union_update(None)][rng.randrange(8)]
+                    try:
+                        bad()
+                    except Exception:
+                        pass
+                elif x == 0:
                     d.add_object(rng.choice(pool_o), kind(rng.sample(pool_p, rng.randint(0, 5)), step))
                 elif x == 1:
                     d.add_property(rng.choice(pool_p), kind(rng.sample(pool_o, rng.randint(0, 5)), step))
